@@ -185,6 +185,11 @@ func NewWorker(p *Program, solverKind string, timeoutMs, seed int) *Worker {
 	if os.Getenv("SYMGO_SLOWLOG") != "" {
 		w.Sol.SlowLog = os.Stderr
 	}
+	if p := os.Getenv("SYMGO_TRANSCRIPT"); p != "" {
+		if f, err := os.OpenFile(p, os.O_CREATE|os.O_WRONLY|os.O_APPEND, 0o644); err == nil {
+			w.Sol.Log = f
+		}
+	}
 	// run initializers of the target packages (which pull in their imports)
 	ps := w.newPathState(nil, DefaultLimits(), false)
 	ps.lim.MaxInstrs = 2_000_000_000
@@ -233,6 +238,7 @@ func (w *Worker) newPathState(prefix []Decision, lim Limits, sample bool) *pathS
 	ctx.Owner = ps
 	ps.res = &PathResult{Reached: map[string]int{}, Checked: map[string]int{}, Funcs: map[string]bool{}, Params: ps.params, Assumes: map[string]bool{}}
 	w.Sol.TimeoutMs = lim.QueryTimeoutMs
+	w.Sol.AlwaysFresh = lim.FreshSolver
 	w.Sol.Begin(ctx)
 	return ps
 }
